@@ -271,5 +271,17 @@ func parseDuration(s *string, def time.Duration) (time.Duration, error) {
 	}
 
 	// Use the user's value, but validate it per the RFC.
-	return time.ParseDuration(*s)
+	d, err := time.ParseDuration(*s)
+	if err != nil {
+		return 0, err
+	}
+
+	// Every duration parsed here ends up in an unsigned 16 or 32 bit field
+	// measured in seconds. Negative values and values beyond the infinity
+	// sentinel would silently wrap around on the wire.
+	if d < 0 || d > ndp.Infinity {
+		return 0, fmt.Errorf("duration %s must be between 0 and %s", d, ndp.Infinity)
+	}
+
+	return d, nil
 }
